@@ -12,6 +12,9 @@ use serde::{Deserialize, Serialize};
 pub struct Case {
     pub expr: String,
     pub mutated: bool,
+    /// pinned clock (seconds since 0001-01-01) for the whole-expression read-back; 0 = 2024-02-28T12:34:56
+    #[serde(default)]
+    pub start: i64,
 }
 
 const KINDS: [FieldKind; 5] = [FieldKind::Minute, FieldKind::Hour, FieldKind::Dom, FieldKind::Month, FieldKind::Dow];
@@ -181,11 +184,17 @@ impl Prop for Denotation {
     const NAME: &'static str = "C16.denotation";
     const BYTES: usize = 200;
     fn gen(u: &mut Unstructured<'_>) -> arbitrary::Result<Case> {
+        if u.ratio(1, 10)? {
+            // sparse schedules (leap days, days 29+, both day fields) read back from starts next to
+            // leap years and common century years
+            return Ok(Case { expr: super::c17::gen_schedule(u)?, mutated: false, start: super::c17::gen_start(u)? });
+        }
         let base = gen_expr(u)?;
         if u.ratio(1, 2)? {
-            Ok(Case { expr: mutate(u, &base)?, mutated: true })
+            Ok(Case { expr: mutate(u, &base)?, mutated: true, start: 0 })
         } else {
-            Ok(Case { expr: base, mutated: false })
+            let start = if u.ratio(1, 2)? { super::c17::gen_start(u)? } else { 0 };
+            Ok(Case { expr: base, mutated: false, start })
         }
     }
     fn check(c: &Case, cx: &mut Cx) -> Verdict {
@@ -255,8 +264,15 @@ impl Prop for Denotation {
         }
         // the whole expression: first results against the reference search
         if sets.satisfiable() {
-            let now = DateTime::from_ymdhms(2024, 2, 28, 12, 34, 56).unwrap();
-            let now_min = cal::days_from_ymd(2024, 2, 28) * 1440 + 12 * 60 + 34;
+            let start = if c.start == 0 { cal::days_from_ymd(2024, 2, 28) * 86_400 + 12 * 3600 + 34 * 60 + 56 } else { c.start };
+            if start < cal::days_from_ymd(1970, 1, 1) * 86_400 || start >= cal::days_from_ymd(2400, 1, 1) * 86_400 {
+                return Verdict::Skip("clock outside 1970..2400");
+            }
+            if c.start != 0 {
+                cx.label("generated_start");
+            }
+            let now = mk_dt(start as i128 * 1_000_000_000);
+            let now_min = start.div_euclid(60);
             let r = catch(|| {
                 let mut s = CronSchedule::parse(&c.expr).unwrap();
                 astrolabe::verif::set_now(Some(now));
@@ -270,11 +286,14 @@ impl Prop for Denotation {
                 Err(p) => return fail("c16.next_panic", format!("first results of {:?} return", c.expr), p.short()),
             };
             let mut t = now_min;
-            for (i, g) in got.iter().enumerate() {
+            for i in 0..3 {
                 let Some(w) = sets.next_after(t, 3300) else { break };
                 let wi = w as i128 * 60 * 1_000_000_000;
-                if *g != wi {
-                    return fail("c16.first_results", format!("result #{} of {:?} after 2024-02-28T12:34:56 = {}", i + 1, c.expr, fmt_instant(wi)), fmt_instant(*g));
+                let what = format!("result #{} of {:?} after {} = {}", i + 1, c.expr, fmt_instant(start as i128 * 1_000_000_000), fmt_instant(wi));
+                match got.get(i) {
+                    None => return fail("c16.first_results_end_early", what, "None".to_string()),
+                    Some(g) if *g != wi => return fail("c16.first_results", what, fmt_instant(*g)),
+                    _ => {}
                 }
                 t = w;
             }
@@ -292,7 +311,7 @@ pub fn run(env: &mut Env) {
         "1-2-3 * * * *", "* * * * 1-2-3", "5-7-7 * * * *", "*/0 * * * *", "60 * * * *", "* * 0 * *", "* * * 0 *", "* * * * 8", "1,,2 * * * *", ",1 * * * *", "1, * * * *",
         "* * * * * *", "* * * *", "", "     ", "a * * * *", "* * * jan-mar,DEC mon,WED,fri",
     ];
-    env.run_list::<Denotation>(fixed.iter().map(|s| Case { expr: s.to_string(), mutated: false }).collect());
+    env.run_list::<Denotation>(fixed.iter().map(|s| Case { expr: s.to_string(), mutated: false, start: 0 }).collect());
     // every single value / every range a<=b / every step, per field
     let mut sys: Vec<Case> = Vec::new();
     for (k, kind) in KINDS.iter().enumerate() {
@@ -300,7 +319,7 @@ pub fn run(env: &mut Env) {
         let wrap = |f: String| {
             let mut fs = ["*".to_string(), "*".to_string(), "*".to_string(), "*".to_string(), "*".to_string()];
             fs[k] = f;
-            Case { expr: fs.join(" "), mutated: false }
+            Case { expr: fs.join(" "), mutated: false, start: 0 }
         };
         for a in lo..=hi {
             sys.push(wrap(a.to_string()));
@@ -325,13 +344,13 @@ pub fn run(env: &mut Env) {
         }
     }
     for (i, m) in MONTHS.iter().enumerate() {
-        sys.push(Case { expr: format!("0 0 1 {} *", m), mutated: false });
-        sys.push(Case { expr: format!("0 0 1 {}-DEC *", m.to_uppercase()), mutated: false });
+        sys.push(Case { expr: format!("0 0 1 {} *", m), mutated: false, start: 0 });
+        sys.push(Case { expr: format!("0 0 1 {}-DEC *", m.to_uppercase()), mutated: false, start: 0 });
         let _ = i;
     }
     for d in DAYS.iter() {
-        sys.push(Case { expr: format!("0 0 * * {}", d), mutated: false });
-        sys.push(Case { expr: format!("0 0 * * {}-sat", d), mutated: false });
+        sys.push(Case { expr: format!("0 0 * * {}", d), mutated: false, start: 0 });
+        sys.push(Case { expr: format!("0 0 * * {}-sat", d), mutated: false, start: 0 });
     }
     env.run_list::<Denotation>(sys);
     env.exhaustive_parts.push(format!("C16: every single value, every step 1..=max+1{} per field, every month and weekday name", if t { ", every range a<=b" } else { " and a grid of ranges a<=b" }));
